@@ -2,6 +2,7 @@
 package c20
 
 import (
+	twin "verifharness/props/c20/twin"
 	"bytes"
 	"fmt"
 	"reflect"
@@ -34,7 +35,8 @@ type Money[Tag any] struct {
 type Tags[Tag any] []string
 type MyStr[Tag any] string
 
-// control look-alikes that are never registered
+// control look-alikes that are never registered (package twin declares REGISTERED types with the same
+// reflect.Type.String())
 type OtherInt int64
 type OtherStruct struct {
 	Units int64
@@ -1257,14 +1259,22 @@ func init() {
 			if tier == "thorough" {
 				d = 4
 			}
-			return fmt.Sprintf("explicit-state exploration of registration histories on the real global registries, model = (current builder ∈ {none,f1,f2}, current schema ∈ {none,s1,s2,s3=[string,null]}) with 'last registration wins', for custom types of four kinds (named int64, struct, named slice, named string) with instrumented codecs (invocation counters; builder f2 marks its wire data so the codec actually used is observable): (a) from the unregistered state every history of length<=3 over {Register(f1),Register(f2)} and over {RegisterSchema(s1),RegisterSchema(s2)}, each on a type nobody registered before (generic named types give 40 fresh types per kind); (b) every history of length<=%d over all four operations with the state carried over; after every operation the type is used at 11 positions {field,*T,**T,[]T,[]*T,map[string]T,map[string]*T,omitempty,struct{X T},[]struct{X T},map[string][]T}: SchemaForType must show the model's schema there, Schema.Codec must consult exactly the model's builder, every occurrence must go through that builder's codec (counters), bytes must decode under the generated schema with the reference decoder, values must round-trip at codec and file level; controls: never-registered look-alike types and the library's own time.Time / null.* registrations at the same positions; and all of them together as siblings of one record, and time.Time fields of one record under different per-field schemas (millis / micros / nanoseconds / date in six arrangements, plus both nullable forms), and a struct type with a registered record schema used as the ROOT type of NewEncoderFor[T] (header schema and row layout must be the registered ones) (two pointer fields × every pair of leaf values, map values, slice of pointers, plain field); plus every history (one level deeper) over {time.RegisterCodecs(), null.RegisterCodecs(), the application registering its own builder and schema for time.Time, the same for null.Int}, after each step of which the most recent registration FOR THAT TYPE must govern time.Time and null.Int (a registration call for other types must not touch it); distinct_nontrivial counts distinct (type, history, position) uses", d)
+			return fmt.Sprintf("explicit-state exploration of registration histories on the real global registries, model = (current builder ∈ {none,f1,f2}, current schema ∈ {none,s1,s2,s3=[string,null]}) with 'last registration wins', for custom types of four kinds (named int64, struct, named slice, named string) with instrumented codecs (invocation counters; builder f2 marks its wire data so the codec actually used is observable): (a) from the unregistered state every history of length<=3 over {Register(f1),Register(f2)} and over {RegisterSchema(s1),RegisterSchema(s2)}, each on a type nobody registered before (generic named types give 40 fresh types per kind); (b) every history of length<=%d over all four operations with the state carried over; after every operation the type is used at 11 positions {field,*T,**T,[]T,[]*T,map[string]T,map[string]*T,omitempty,struct{X T},[]struct{X T},map[string][]T}: SchemaForType must show the model's schema there, Schema.Codec must consult exactly the model's builder, every occurrence must go through that builder's codec (counters), bytes must decode under the generated schema with the reference decoder, values must round-trip at codec and file level; controls: never-registered look-alike types (whose namesakes — same package base name and type name, hence the same reflect.Type.String(), but different types — ARE registered with custom codecs and schemas) and the library's own time.Time / null.* registrations at the same positions; and all of them together as siblings of one record, and time.Time fields of one record under different per-field schemas (millis / micros / nanoseconds / date in six arrangements, plus both nullable forms), and a struct type with a registered record schema used as the ROOT type of NewEncoderFor[T] (header schema and row layout must be the registered ones) (two pointer fields × every pair of leaf values, map values, slice of pointers, plain field); plus every history (one level deeper) over {time.RegisterCodecs(), null.RegisterCodecs(), the application registering its own builder and schema for time.Time, the same for null.Int}, after each step of which the most recent registration FOR THAT TYPE must govern time.Time and null.Int (a registration call for other types must not touch it); distinct_nontrivial counts distinct (type, history, position) uses", d)
 		},
 		Assumptions: []string{
 			"a registration cannot be undone, so model state is carried across histories within a worker; states with an unregistered component are only reachable on fresh types",
 			"custom builders accept string schemas (and long for the named int64); for other schemas the builder returns an error and Schema.Codec must fail",
 			"the two recorded C01 known findings (pointer to invalid wrapper, pointer to nil pointer) are normalised away here",
 		},
-		Init:     func(c *fw.Ctx) { reg.Init() },
+		Init: func(c *fw.Ctx) {
+			reg.Init()
+			// namesakes of the controls (same package base name, same type name, different type) are registered
+			for kind, t := range []reflect.Type{reflect.TypeOf(twin.OtherInt(0)), reflect.TypeOf(twin.OtherStruct{}), reflect.TypeOf(twin.OtherTags(nil)), reflect.TypeOf(twin.OtherStr(""))} {
+				avro.Register(t, builderFor(1, kind))
+				sc, _ := schemaByID(1)
+				avro.RegisterSchema(t, sc)
+			}
+		},
 		NumCases: func(tier string) int { return 6 },
 		RunCase: func(c *fw.Ctx, idx int) {
 			d := 3
